@@ -20,6 +20,7 @@ type Storer struct {
 
 	OneTime         bool           // hand out the TOTP replay-protecting user type
 	ProfileKeys     []string       // the application's declared profile fields
+	ZoneLess        bool           // timestamp columns keep no zone: wall-clock fields in, UTC out
 	FoldPIDs        bool           // Load finds an account under any spelling that lower-cases to its identifier
 	PersistAll      bool           // PutArbitrary stores everything it is handed
 	TimeLoc         *time.Location // Location of the timestamps handed out by Load* (nil: as stored)
@@ -297,7 +298,9 @@ func (s *Storer) Save(ctx context.Context, user authboss.User) error {
 		s.noteResult("notfound")
 		return authboss.ErrUserNotFound
 	}
-	s.users[u.PID] = u.Clone()
+	c := u.Clone()
+	s.stripZones(c)
+	s.users[u.PID] = c
 	return nil
 }
 
@@ -316,7 +319,9 @@ func (s *Storer) Create(ctx context.Context, user authboss.User) error {
 		s.noteResult("found")
 		return authboss.ErrUserFound
 	}
-	s.users[u.PID] = u.Clone()
+	cc := u.Clone()
+	s.stripZones(cc)
+	s.users[u.PID] = cc
 	return nil
 }
 
@@ -386,6 +391,7 @@ func (s *Storer) SaveOAuth2(ctx context.Context, user authboss.OAuth2User) error
 	s.mu.Lock()
 	defer s.mu.Unlock()
 	c := u.Clone()
+	s.stripZones(c)
 	c.PID = pid
 	u.PID = pid
 	s.users[pid] = c
@@ -426,4 +432,18 @@ func (s *Storer) UseRememberToken(ctx context.Context, pid, token string) error 
 	}
 	s.noteResult("notfound")
 	return authboss.ErrTokenNotFound
+}
+
+// stripZones models zone-less timestamp columns (timestamp without time zone, SQLite text, a
+// hand-written mapper): what is stored is the wall-clock reading of the value handed in, and it is
+// read back as UTC. Harmless for values that are UTC already.
+func (s *Storer) stripZones(u *User) {
+	if !s.ZoneLess {
+		return
+	}
+	for _, t := range []*time.Time{&u.LastAttempt, &u.Locked, &u.RecoverExpiry, &u.OAuth2Expiry} {
+		if !t.IsZero() {
+			*t = time.Date(t.Year(), t.Month(), t.Day(), t.Hour(), t.Minute(), t.Second(), t.Nanosecond(), time.UTC)
+		}
+	}
 }
